@@ -84,6 +84,11 @@ Theorem C18_list_version_refuted : exists ops, redis_run cfgL ops <> mem_run cfg
 Proof. exists w_list_version. exact list_version_differs. Qed.
 Theorem C18_list_reverse_refuted : exists ops, redis_run cfgL ops <> mem_run cfgL ops.
 Proof. exists w_list_reverse. exact list_reverse_differs. Qed.
+Theorem C18_list_since_maxuint_refuted : exists ops, redis_run cfgL ops <> mem_run cfgL ops.
+Proof. exists w_list_since_max. exact list_since_max_differs. Qed.
+(* the empty channel name: the Redis side drops the delivery ("unsupported channel") *)
+Theorem C18_empty_channel_refuted : exists ops, redis_run cfgS ops <> mem_run cfgS ops.
+Proof. exists w_empty_channel. exact empty_channel_differs. Qed.
 (* time: a version-suppressed publish refreshes the history TTL in memory only;
    a meta TTL shorter than the history TTL leaves stale entries in Redis *)
 Theorem C18_suppressed_publish_ttl_refuted : exists ops, redis_run cfgS ops <> mem_run cfgS ops.
